@@ -538,6 +538,24 @@ var AncestorLoop = errors.New("ancestor loop detected")
 
 // DoAncestors calls the given function on this location and all of its ancestors in depth-first order.
 func (loc *Location) DoAncestors(ctx *Context, fn func(*Location) error) error {
+	return loc.doAncestors(ctx, fn, make(map[string]bool), make(map[string]bool))
+}
+
+// doAncestors does the work for DoAncestors.
+//
+// 'visiting' holds the names of the locations on the current path
+// (meeting one of them again is a loop); 'done' holds the locations
+// for which fn has been called (a location reachable along two
+// paths is visited once).
+func (loc *Location) doAncestors(ctx *Context, fn func(*Location) error, visiting map[string]bool, done map[string]bool) error {
+	if done[loc.Name] {
+		return nil
+	}
+	if visiting[loc.Name] {
+		return AncestorLoop
+	}
+	visiting[loc.Name] = true
+	defer delete(visiting, loc.Name)
 
 	parents, err := loc.getParents(ctx)
 	if err != nil {
@@ -569,12 +587,13 @@ func (loc *Location) DoAncestors(ctx *Context, fn func(*Location) error) error {
 			if err != nil {
 				return err
 			}
-			if err = p.DoAncestors(ctx, fn); err != nil {
+			if err = p.doAncestors(ctx, fn, visiting, done); err != nil {
 				return err
 			}
 		}
 	}
 
+	done[loc.Name] = true
 	return fn(loc)
 }
 
